@@ -217,12 +217,35 @@ def translated(prog, rep, cn):
     # the pixel iterator adds the offset
     IT = "embedded_graphics::iterator::pixel::Translated"
     nx = prog.method1(IT, "next", "core::iter::traits::iterator::Iterator")
-    ro = cn.ret(nx)
     it_off = ("field", P(1, "self"), field_index(prog, IT, "offset"))
     it_iter = ("field", P(1, "self"), field_index(prog, IT, "iter"))
-    m = match(ro, ("comb", "map", "?x", ("agg", "*Pixel::Pixel", (("call", "*Add>::add", "_", (("field", ("payload", "?x"), 0), it_off)), ("field", ("payload", "?x"), 1)))))
-    ok = m is not None and match(m["?x"], ("call", "*Iterator::next", "_", (it_iter,))) is not None
-    rep.check(ok, "R03.3", "iterator::Translated::next", "each pixel of the inner iterator must become Pixel(p + self.offset, c); next() returns %s" % show(ro, maxd=7), at=nx.span, fn=nx.path)
+    # path summaries: None when the inner iterator is exhausted, otherwise its pixel moved by the offset
+    from mirq.paths import Paths, Unsupported
+    ok = True
+    shown = []
+    try:
+        summs = Paths(prog).of(nx)
+        n_some = 0
+        for sm in summs:
+            shown.append(show(sm.ret, maxd=6))
+            inner = [fct for fct in sm.facts if fct[0] == "variant" and match(fct[1], ("call", "*Iterator::next", "_", (it_iter,))) is not None]
+            if len(inner) != 1 or len(sm.facts) != 1 or sm.writes() or len(sm.calls()) != 1:
+                ok = False
+                continue
+            x, names = inner[0][1], inner[0][2]
+            if names == ("None",):
+                ok = ok and sm.ret == ("agg", "core::option::Option::None", ())
+            elif names == ("Some",):
+                n_some += 1
+                px = ("payload", x)
+                ok = ok and match(sm.ret, ("agg", "*Option::Some", (("agg", "*Pixel::Pixel", (("call", "*Add>::add", "_", (("field", px, 0), it_off)), ("field", px, 1))),))) is not None
+            else:
+                ok = False
+        ok = ok and n_some >= 1
+    except Unsupported as e:
+        ok = False
+        shown.append(str(e))
+    rep.check(ok, "R03.3", "iterator::Translated::next", "each pixel of the inner iterator must become Pixel(p + self.offset, c); next() returns %s" % shown[:3], at=nx.span, fn=nx.path)
     # PixelIteratorExt::translated builds the iterator with the given offset
     pe = [f for f in prog.fns.values() if f.name == "translated" and f.impl and str(prog.impls[f.impl].get("trait", "")).endswith("PixelIteratorExt")]
     if len(pe) == 1:
